@@ -18,11 +18,21 @@ module N :
 
   val leb : coq_N -> coq_N -> bool
 
+  val ltb : coq_N -> coq_N -> bool
+
+  val even : coq_N -> bool
+
+  val odd : coq_N -> bool
+
   val pos_div_eucl : positive -> coq_N -> coq_N * coq_N
 
   val div_eucl : coq_N -> coq_N -> coq_N * coq_N
 
   val modulo : coq_N -> coq_N -> coq_N
+
+  val to_nat : coq_N -> nat
+
+  val of_nat : nat -> coq_N
 
   val eq_dec : coq_N -> coq_N -> bool
  end
